@@ -6,6 +6,8 @@ import (
 	"go/token"
 	"go/types"
 	"strings"
+
+	"golang.org/x/tools/go/ssa"
 )
 
 // C07 - values and calls cross the host/script boundary unchanged.
@@ -22,7 +24,8 @@ func init() {
 			"R07.1 script -> host: every variant of the compiled-call generator that invokes the host function builds a fresh argument vector of the call's arity inside the run-time closure, fills every element from the operand generators through the one wrapping helper (getBinValue with the wrapper-type lookup), in operand order, with no early exit; " +
 			"R07.2 host -> script: the reflect.MakeFunc bridge of an interpreted function stores every incoming argument (the only early exit is the documented 'no frame entry for an unused argument'), runs the function body, and returns exactly the first numRet slots of the activation frame; " +
 			"R07.3 the activation frames created by both bridges have their slots bound to fresh storage, arguments and receivers being copied in (same analysis as C05/R05.2); R07.4 results of a compiled call in a return statement go to the slot the compiler allotted (same analysis as C02/R02.8, generator clause); " +
-			"R07.5 the binary-package table filled by Use never aliases the caller's Exports map (same analysis as C13/R13.6); R07.6 the wrapper handed to compiled code for an interpreted value is selected on the value's full method set (same analysis as C05/R05.5).",
+			"R07.5 the binary-package table filled by Use never aliases the caller's Exports map (same analysis as C13/R13.6); R07.6 the wrapper handed to compiled code for an interpreted value is selected on the value's full method set (same analysis as C05/R05.5); " +
+			"R07.7 the copier fixing the arguments of go/defer statements copies every settable value; R07.8 Execute returns the live value, never a fresh copy. What the bridge does after a cancelled evaluation is C10's subject (R10.2).",
 		Assumptions: []string{"reflect.Value.Call and reflect.MakeFunc transport values as documented", "getBinValue's own case analysis is not decided"},
 		Run:         runC07,
 	})
@@ -31,6 +34,8 @@ func init() {
 	ruleText["R07.3"] = "same analysis as C05/R05.2 (fresh activation slots)"
 	ruleText["R07.4"] = "same analysis as C02/R02.8 (a run-time generator derives a result slot from the operand's position only where the direct store is allowed)"
 	ruleText["R07.5"] = "same analysis as C13/R13.6 (Use copies the Exports map entries into per-interpreter maps)"
+	ruleText["R07.7"] = "on the flow graph of every argument copier (func(reflect.Value) reflect.Value using reflect.New and Set: fixArg) pruned under <param>.CanSet() == true, no `return <param>` is reachable: the arguments of go and defer statements calling host functions are fixed when the statement executes"
+	ruleText["R07.8"] = "no value returned by (*Interpreter).Execute originates (SSA) in reflect.New(T).Elem() or an argument copier: the host gets the live variable, as from Globals and Symbols"
 	ruleText["R07.6"] = "same analysis as C05/R05.5 (getWrapper decides on (*itype).methods)"
 }
 
@@ -54,6 +59,8 @@ func runC07(c *Config, r *Report) {
 		c05R5(ic, s)
 		relabel(r, s, "R07.6")
 	}
+	copiersAlwaysCopy(ic, r, "R07.7")
+	c07R8(ic, r)
 }
 
 // c07R1: sibling agreement of the argument preparation in callBin.
@@ -298,4 +305,68 @@ func c07R2(ic *IC, r *Report) {
 	}
 	r.Check(ran && okRet, "R07.2", "genFunctionWrapper/results", ic.pos(cb.Pos()), "the body is executed and the results are the first numRet slots of the frame",
 		fmt.Sprintf("the host-to-script bridge does not run the function body and return fr.data[:numRet] (runs: %v, returns the result slots: %v): a native caller receives missing or shifted results", ran, okRet))
+}
+
+// c07R8: the value handed to the host by Execute (hence Eval) for a variable is the variable
+// itself, as Globals and Symbols hand it: the host reads later assignments by the script and
+// the script sees the host's Set. No value returned by Execute originates in a fresh
+// allocation (reflect.New(T).Elem(), an argument copier).
+func c07R8(ic *IC, r *Report) {
+	fn := ic.ssaMeth("Interpreter", "Execute")
+	if fn == nil {
+		r.Errorf("anchor not resolved: (*Interpreter).Execute")
+		return
+	}
+	cps := copiers(ic)
+	isCopier := func(c *ssa.Call) bool {
+		if sc := c.Call.StaticCallee(); sc != nil {
+			if o, ok := sc.Object().(*types.Func); ok && cps[o] {
+				return true
+			}
+		}
+		return false
+	}
+	n := 0
+	var bad []string
+	for _, b := range fn.Blocks {
+		for _, ins := range b.Instrs {
+			ret, ok := ins.(*ssa.Return)
+			if !ok || len(ret.Results) == 0 {
+				continue
+			}
+			n++
+			for _, o := range origins(ret.Results[0], map[ssa.Value]bool{}) {
+				c, ok := o.(*ssa.Call)
+				if !ok {
+					continue
+				}
+				if isCopier(c) {
+					bad = append(bad, "a copy made by "+staticCalleeName(&c.Call)+" at "+ic.pos(c.Pos()))
+				}
+				if ssaCalleeKey(c) == "reflect.Value.Elem" {
+					for _, ro := range origins(c.Call.Args[0], map[ssa.Value]bool{}) {
+						if rc, ok := ro.(*ssa.Call); ok && ssaCalleeKey(rc) == "reflect.New" {
+							bad = append(bad, "a fresh reflect.New(T).Elem() at "+ic.pos(rc.Pos()))
+						}
+					}
+				}
+			}
+		}
+	}
+	if n == 0 {
+		r.Errorf("R07.8: no return found in (*Interpreter).Execute")
+		return
+	}
+	r.Check(len(bad) == 0, "R07.8", "Interpreter.Execute/result-is-the-live-value", ic.pos(fn.Pos()), "no returned value originates in a fresh allocation",
+		"(*Interpreter).Execute can return "+strings.Join(dedupStr(bad), ", ")+" instead of the value read from the frame: a variable obtained by Eval no longer follows the assignments of the script, and what the host sets through it is lost, while Globals and Symbols still hand out the live variable")
+}
+
+// ssaCalleeKey returns the objKey ("pkg.Recv.name") of the static callee of c, or "".
+func ssaCalleeKey(c *ssa.Call) string {
+	if sc := c.Call.StaticCallee(); sc != nil {
+		if o, ok := sc.Object().(*types.Func); ok {
+			return objKey(o)
+		}
+	}
+	return ""
 }
